@@ -28,6 +28,7 @@ func c02(c *core.Check) {
 	c02FootnoteSnapshot(c)
 	c02RetryReset(c)
 	c02CancelledPublishesNothing(c)
+	c02SpanningResume(c)
 }
 
 func isResumeStack(t types.Type) bool {
